@@ -79,6 +79,7 @@ class VirtualLoop(asyncio.SelectorEventLoop):
         super().__init__(selectors.DefaultSelector())
         self._vnow = 1_000_000.0
         self._busy = 0
+        self.spinning = lambda: False  # set by the rig: is the peer in its passive busy wait?
 
     def time(self) -> float:
         return self._vnow
@@ -88,7 +89,7 @@ class VirtualLoop(asyncio.SelectorEventLoop):
             h = heapq.heappop(self._scheduled)
             h._scheduled = False
             self._timer_cancelled_count = max(0, self._timer_cancelled_count - 1)
-        self._busy = self._busy + 1 if self._ready else 0
+        self._busy = self._busy + 1 if (self._ready and self.spinning()) else 0
         if (not self._ready or self._busy > self.SPIN) and self._scheduled:
             before = len(self._ready)
             events = self._selector.select(0)
@@ -447,6 +448,7 @@ class SessionRig:
         global _clock_loop
         self.loop = VirtualLoop()
         _clock_loop = self.loop  # before the Peer is built: Delay() and Stats read the clock in __init__
+        self.loop.spinning = lambda: self.peer is not None and self.task is not None and not self.task.done() and self.passive_spin()
         self.t0 = self.loop.time()
         self.devnull = os.open(os.devnull, os.O_RDONLY)
         self.pinned: list[int] = []
